@@ -221,10 +221,10 @@ func (p *pkgInfo) detOf(name string) (kind string, lean string, why string) {
 func leanStr(s string) string { return strconv.Quote(s) }
 
 func main() {
-	if len(os.Args) != 4 {
-		fatal("usage: extract <repo> <gen-dir> <facts.json>")
+	if len(os.Args) != 5 {
+		fatal("usage: extract <repo> <gen-dir> <facts.json> <registry.go>")
 	}
-	repo, gen, factsPath := os.Args[1], os.Args[2], os.Args[3]
+	repo, gen, factsPath, regPath := os.Args[1], os.Args[2], os.Args[3], os.Args[4]
 	os.MkdirAll(gen, 0o755)
 	fx := &facts{Detectors: map[string]string{}, Untranslated: map[string]string{}, Literals: map[string][]int64{}, Signatures: map[string][]string{}}
 
@@ -236,11 +236,14 @@ func main() {
 	}
 	var detNames []string
 	for n, init := range mp.vars {
-		if !ast.IsExported(n) {
-			continue
-		}
-		if _, ok := init.(*ast.CallExpr); ok {
-			detNames = append(detNames, n)
+		// every package-level variable initialised by a combinator call (exported or
+		// helper such as phpPageF); table-like variables are not calls of identifiers
+		if call, ok := init.(*ast.CallExpr); ok {
+			if id, ok := call.Fun.(*ast.Ident); ok {
+				if _, isFunc := mp.funcs[id.Name]; isFunc {
+					detNames = append(detNames, n)
+				}
+			}
 		}
 	}
 	for n, fd := range mp.funcs {
@@ -280,6 +283,13 @@ func main() {
 	}
 	sb.WriteString("]\n\nend Mime.Gen\n")
 	writeIfChanged(filepath.Join(gen, "Sigs.lean"), sb.String())
+	var rb strings.Builder
+	rb.WriteString("//go:build verif\n\npackage magic\n\n// GENERATED by /verif/go/extract: detectors by name, for the harness.\nvar VerifDetectors = map[string]Detector{\n")
+	for _, n := range detNames {
+		rb.WriteString(fmt.Sprintf("\t%q: %s,\n", n, n))
+	}
+	rb.WriteString("}\n")
+	writeIfChanged(regPath, rb.String())
 
 	// ---------------- tree.go ----------------
 	rootFiles := parseDir(repo)
